@@ -182,7 +182,7 @@ pub fn run(ctx: &mut Ctx) {
         let flat = Flat::new(&tree);
         for _ in 0..3 {
             let got = catch(|| some_strategies(rng, &game, &flat));
-            let Ok(Some((src, strat))) = got else {
+            let Ok(Some((src, mut strat))) = got else {
                 ctx.inconclusive("profile-source-failed(see C05/C14)");
                 continue;
             };
@@ -196,6 +196,41 @@ pub fn run(ctx: &mut Ctx) {
                     }
                     ctx.ok(h, flat.info_names[0].len() + flat.info_names[1].len() >= 1);
                     ctx.sample(3, || json!({"game": tree.brief(200), "source": src, "named": named_json(&strat)}));
+                    // history on one value: the view was just exported (check() walks it); now
+                    // truncate that value - or a clone taken after the export - at a threshold taken
+                    // from the profile itself and export again: the second view must describe the
+                    // profile the value holds *now*
+                    if rng.chance(0.3) {
+                        let stored: Vec<f64> = strat.verif_probs().iter().flat_map(|v| v.iter().copied()).filter(|p| *p > 0.0 && *p < 1.0).collect();
+                        if !stored.is_empty() {
+                            let pick = stored[rng.below(stored.len())];
+                            let h = match rng.below(3) {
+                                0 => pick,
+                                1 => pick * 1.0000001,
+                                _ => (pick + 0.5) / 2.0,
+                            };
+                            let on_clone = rng.chance(0.5);
+                            let mut cloned = strat.clone();
+                            let later = if on_clone { &mut cloned } else { &mut strat };
+                            let src2 = format!("{} ; as_named ; {}truncate({}) ; as_named", src, if on_clone { "clone ; " } else { "" }, h);
+                            let r = catch(|| {
+                                later.truncate(h);
+                                check(ctx, idx, &desc, &tree, &flat, &game, &src2, later)
+                            });
+                            ctx.count("histories(export, truncate, export)", 1);
+                            match r {
+                                Ok(Ok(())) => {}
+                                Ok(Err((sig, msg))) => {
+                                    ctx.violation(idx, &format!("C13:history:{}", sig), &format!("{} [{} on {}]", msg, src2, desc), json!({"game": tree.to_json(), "source": src2}));
+                                    return;
+                                }
+                                Err(p) => {
+                                    ctx.violation(idx, "C13:history:panic", &format!("panic: {} [{} on {}]", p, src2, desc), json!({"game": tree.to_json(), "source": src2}));
+                                    return;
+                                }
+                            }
+                        }
+                    }
                 }
                 Ok(Err((sig, msg))) => {
                     ctx.violation(idx, &format!("C13:{}", sig), &format!("{} [{} on {}]", msg, src, desc), json!({"game": tree.to_json(), "source": src}));
@@ -209,7 +244,7 @@ pub fn run(ctx: &mut Ctx) {
         }
     });
     ctx.finish(crate::report::extra(
-        "cases = (game, profile): G1/G2 games x profiles from {solver output of a random method/preset/budget, truncated solver output, from_named of random/pure/sparse/near-uniform/tiny/skewed profiles, the same imported with each infoset's weights rescaled to units from {2^-1020..2^-1065, 1e-300, 1e-20, 3, 1e300}}. The expected named view is built from the dense stored probabilities (hook verif_probs) and the harness tree; as_named must list every infoset once with exactly the positive-probability actions (single-action infosets as (action,1)), len() of the infoset iterator and of every action iterator is queried before every next() and must equal the number of items still to come, and from_named/from_named_eq(as_named(s)) must reproduce s (bit-identical or within 1e-15). distinct = hash(tree, stored probabilities); non-trivial = the game has at least one infoset.",
+        "cases = (game, profile): G1/G2 games x profiles from {solver output of a random method/preset/budget, truncated solver output, from_named of random/pure/sparse/near-uniform/tiny/skewed profiles, the same imported with each infoset's weights rescaled to units from {2^-1020..2^-1065, 1e-300, 1e-20, 3, 1e300}}. The expected named view is built from the dense stored probabilities (hook verif_probs) and the harness tree; as_named must list every infoset once with exactly the positive-probability actions (single-action infosets as (action,1)), len() of the infoset iterator and of every action iterator is queried before every next() and must equal the number of items still to come, and from_named/from_named_eq(as_named(s)) must reproduce s (bit-identical or within 1e-15). History: in 30% of the cases the value just exported (or a clone of it) is truncated at a threshold taken from its own probabilities and exported again; the second view is judged against the probabilities the value holds then. distinct = hash(tree, stored probabilities); non-trivial = the game has at least one infoset.",
         &["infoset alignment by name through the public API", "round-trip tolerance 1e-15 absolute on probabilities"],
     ));
 }
